@@ -214,7 +214,7 @@ def write_evidence(pid, tier, seed, mod, results, build_info, wall, nviol, lines
         for f in r.get("functions") or []:
             fns.add(f)
         s = {k: r.get(k) for k in ("oid", "engine", "desc", "functions", "bounds", "outside", "verdict", "checks", "queries",
-                                   "feasible_paths", "inductive_steps_proved", "follow_up", "portfolio", "vars", "clauses", "solver_s", "wall_s", "covers_satisfied", "excluded_known_finding_paths", "callees",
+                                   "feasible_paths", "inductive_steps_proved", "follow_up", "portfolio", "probes_violating_natively", "vars", "clauses", "solver_s", "wall_s", "covers_satisfied", "excluded_known_finding_paths", "callees",
                                    "failed", "counterexamples", "detail", "validation", "cross_check") if r.get(k) not in (None, [], "")}
         samples.append(s)
     ev = {
